@@ -106,6 +106,10 @@ func (i *interpreter) decide(cond *Term, where string) bool {
 		p.trace = append(p.trace, choice{kind: 'b', taken: true, altOpen: true, where: where})
 		i.addPC(cond)
 		i.stats.forks++
+		if i.forkSites == nil {
+			i.forkSites = map[string]int{}
+		}
+		i.forkSites[where]++
 		return true
 	case rT == resSat:
 		p.trace = append(p.trace, choice{kind: 'b', taken: true, where: where})
